@@ -11,6 +11,7 @@ from vf import common, known
 
 NPROC = min(16, os.cpu_count() or 4)
 WORKER_TIMEOUT_S = {'quick': 900, 'thorough': 3 * 3600}
+MIN_OBS_FACTOR = 0.5
 
 
 def main(argv):
@@ -112,6 +113,10 @@ def conclude(prop, tier, seed, mod, results, dead, wall):
     for name, minimum in mins.items():
         got = evaluations if name == 'evaluations' else \
             len(classes) if name == 'classes' else monitors.get(name, 0)
+        # The declared minimum is what a run was measured to observe, rounded down; the purpose of the threshold is to
+        # notice a deciding monitor that is (almost) never reached, not to pin the workload size: half of it suffices,
+        # which leaves room for the variation between seeds.
+        minimum = max(1, int(minimum * MIN_OBS_FACTOR)) if minimum > 0 else 0
         if got < minimum:
             inconclusive.append('monitor %s observed %d < required %d' % (name, got, minimum))
 
